@@ -721,6 +721,23 @@ def grid_subscript(interp, g: Grid, idx: V, node) -> V:
                 k += 1
                 continue
             if len(d) != 1:
+                # slice of a product dimension at multiples of the minor stride: slice the major axis
+                lo2 = _norm_bound(lo, n, Poly.const(0), interp)
+                hi2 = _norm_bound(hi, n, n, interp)
+                stride = Poly.const(1)
+                for _, e_ in d[1:]:
+                    stride = stride * e_
+                qlo, qhi = lo2 / stride, hi2 / stride
+
+                def integral(q):
+                    return all(c_.denominator == 1 for c_ in q.terms.values()) and \
+                        all(e2 >= 0 and e2.denominator == 1 for mm in q.terms for _, e2 in mm)
+                if integral(qlo) and integral(qhi):
+                    ni = interp.fresh_idx("s")
+                    elem = subst(elem, {d[0][0]: Poly.atom(ni) + qlo})
+                    out_dims.append([(ni, qhi - qlo)] + list(d[1:]))
+                    k += 1
+                    continue
                 return Top("slice of product dimension")
             lo2 = _norm_bound(lo, n, Poly.const(0), interp)
             hi2 = _norm_bound(hi, n, n, interp)
